@@ -393,7 +393,7 @@ const GRID_GAPS: [u64; 60] = {
     g
 };
 
-const GRID_SHAPES: [u8; 6] = [0, 1, 2, 3, 9, 10]; // uniform, nines, pow10, one0one, words, trailzeros
+const GRID_SHAPES: [u8; 6] = [0, 1, 2, 13, 9, 12]; // uniform, nines, pow10, all-ones limbs, boundary words, near 2^k
 
 /// grid: gap x shape_a x shape_b x signpair x lenclass
 fn grid_total() -> u64 {
@@ -420,6 +420,23 @@ fn grid_case(i: u64, seed: u64) -> Option<Pair> {
     let da = gen::digits_of(&DigSpec { shape: sa, len: la, head: vec![], seed: rng.next(), aux: rng.next() as u32 });
     let db = gen::digits_of(&DigSpec { shape: sb, len: lb, head: vec![], seed: rng.next(), aux: rng.next() as u32 });
     let base = rng.below(81) as i64 - 40;
+    let (sca, scb) = if rng.below(2) == 0 { (base, base + gap as i64) } else { (base + gap as i64, base) };
+    let a = D::new(if signs & 1 == 1 { format!("-{}", da) } else { da }, sca);
+    let b = D::new(if signs & 2 == 2 { format!("-{}", db) } else { db }, scb);
+    Some(Pair { a, b })
+}
+
+/// every gap 0..=max_gap with short operands of several shapes (boundaries of any gap-dependent fast path)
+fn sweep_case(i: u64, max_gap: u64, seed: u64) -> Option<Pair> {
+    let gap = i % (max_gap + 1);
+    let k = i / (max_gap + 1);
+    let sa = GRID_SHAPES[(k % 6) as usize];
+    let sb = GRID_SHAPES[((k / 6) % 6) as usize];
+    let signs = (k / 36) % 4;
+    let mut rng = SplitMix(seed ^ i.wrapping_mul(0xd6e8feb86659fd93));
+    let da = gen::digits_of(&DigSpec { shape: sa, len: 1 + rng.below(24) as usize, head: vec![], seed: rng.next(), aux: rng.next() as u32 });
+    let db = gen::digits_of(&DigSpec { shape: sb, len: 1 + rng.below(24) as usize, head: vec![], seed: rng.next(), aux: rng.next() as u32 });
+    let base = rng.below(41) as i64 - 20;
     let (sca, scb) = if rng.below(2) == 0 { (base, base + gap as i64) } else { (base + gap as i64, base) };
     let a = D::new(if signs & 1 == 1 { format!("-{}", da) } else { da }, sca);
     let b = D::new(if signs & 2 == 2 { format!("-{}", db) } else { db }, scb);
@@ -531,6 +548,16 @@ pub fn run(ctx: &Ctx) {
         false,
         "gap in {0..45, 586..593, 607, 608, 1179, 1180, 4096, 10000} x 6x6 digit shapes x 4 sign pairs x 3 length classes; all 30 decimal overloads + unary + Sum per tuple",
         move |i| grid_case(i % grid_total(), seed.wrapping_add(i / grid_total())),
+        check_pair,
+    );
+    let max_gap = t.pick(3000u64, 12_000);
+    ctx.enumerated(
+        "gap-sweep",
+        "pair",
+        (max_gap + 1) * t.pick(4, 36 * 4),
+        false,
+        &format!("EVERY scale gap 0..={} (both directions) with operands of 1..24 digits; quick draws 4 shape/sign combinations per gap, thorough all 144", max_gap),
+        move |i| sweep_case(i, max_gap, seed),
         check_pair,
     );
     let max_len = t.pick(400usize, 5000);
